@@ -51,7 +51,7 @@ THRESHOLDS = {
 MIN_NONTRIVIAL = {"quick": 150, "thorough": 250}
 
 RULE = ("cases drawn from VERIF_SEED; a case fixes (cyclic?, n class in {2,3,4,5,6-32,33-300,10000}, generator) and draws `reps` "
-        "systems from it. Generators: strictly diagonally dominant with random/negative/positive signs and margins 1e-4..10; "
+        "systems from it; the cyclic flag is set before the entries, after them, not at all (cyclic is the default) or re-asserted before every solve. Generators: strictly diagonally dominant with random/negative/positive signs and margins 1e-4..10; "
         "L D L^T-generated SPD (cyclic: corner with its PSD rank-one completion, or bare corner shrunk until the long-double "
         "reference factorisation is positive); some/all sub-diagonals and/or the corner zero; symmetric scalings D A D with "
         "d_i in 10^[-E,E], E=1..5 (random, ramp, powers of two); line matrices of the documented stencil on generated "
